@@ -21,6 +21,7 @@ type DScenario struct {
 	Src    string `json:"src"`
 	Result string `json:"result"`
 	Back   string `json:"back"`
+	Order  string `json:"order"`
 }
 
 // RunDScen executes each scenario on a fresh real chain: a reporter (own stake at two validators) with two selectors
@@ -86,6 +87,12 @@ func RunDScen(casesPath, tracePath, statsPath string, seed int64, proj string) e
 			w.block(o, 2*sec, func() { w.Undelegate(b, bv, part) })
 		case "undel_all":
 			w.block(o, 2*sec, func() { w.Undelegate(b, bv, tok) })
+		case "undel_two_small_first":
+			w.block(o, 2*sec, func() { w.Undelegate(b, bv, part/int64(4+w.pick(12))) })
+			w.block(o, 2*sec, func() { w.Undelegate(b, bv, part-part/int64(4+w.pick(3))) })
+		case "undel_two_big_first":
+			w.block(o, 2*sec, func() { w.Undelegate(b, bv, part-part/int64(4+w.pick(3))) })
+			w.block(o, 2*sec, func() { w.Undelegate(b, bv, part/int64(8+w.pick(12))) })
 		case "redel_part":
 			w.block(o, 2*sec, func() { w.Redelegate(b, bv, bto, part) })
 		case "redel_all":
@@ -149,7 +156,15 @@ func RunDScen(casesPath, tracePath, statsPath string, seed int64, proj string) e
 		// ---- votes ----
 		ch := map[string]disputetypes.VoteEnum{"support": disputetypes.VoteEnum_VOTE_SUPPORT, "against": disputetypes.VoteEnum_VOTE_AGAINST, "invalid": disputetypes.VoteEnum_VOTE_INVALID}
 		voters := []*Actor{w.Team, tipper, other, s2}
-		if c.Result == "noquorum" {
+		switch c.Order {
+		case "rep_first":
+			voters = []*Actor{w.Team, tipper, rep, s2, s1, other}
+		case "sel_first":
+			voters = []*Actor{w.Team, s2, s1, rep, tipper, other}
+		}
+		if c.Result == "novote" {
+			w.block(o, 2*sec)
+		} else if c.Result == "noquorum" {
 			w.block(o, 2*sec, func() { w.Vote(s2, id, disputetypes.VoteEnum_VOTE_SUPPORT) })
 		} else {
 			var vs []func()
